@@ -17,8 +17,8 @@ from ref import secp, sighash, taproot, sign as rsign, tx as rtx, verify
 from checks.lockstep import parse_events
 
 PROP = 'C03'
-TYPES = ['p2pk', 'multisig', 'p2pkh', 'p2sh-multisig', 'p2sh-hashlock', 'p2wpkh', 'p2wsh', 'p2sh-p2wpkh', 'p2sh-p2wsh', 'p2tr-key', 'p2tr-script']
-SEGWIT = {'p2wpkh', 'p2wsh', 'p2sh-p2wpkh', 'p2sh-p2wsh', 'p2tr-key', 'p2tr-script'}
+TYPES = ['p2pk', 'multisig', 'p2pkh', 'p2sh-multisig', 'p2sh-hashlock', 'p2wpkh', 'p2wsh', 'p2sh-p2wpkh', 'p2sh-p2wsh', 'p2tr-key', 'p2tr-script', 'p2wsh-timelock', 'p2sh-timelock']
+SEGWIT = {'p2wpkh', 'p2wsh', 'p2sh-p2wpkh', 'p2sh-p2wsh', 'p2tr-key', 'p2tr-script', 'p2wsh-timelock'}
 SATS = {
     'p2pk': ['valid', 'wrong-key', 'altered-output', 'altered-sequence', 'altered-locktime', 'non-push-scriptsig', 'leftover-stack', 'unexpected-witness', 'split-conditional', 'altstack-carry', 'wrong-amount'],
     'multisig': ['valid', 'wrong-key', 'wrong-order', 'altered-output', 'missing-sig', 'nonempty-dummy', 'leftover-stack'],
@@ -31,7 +31,10 @@ SATS = {
     'p2sh-p2wsh': ['valid', 'wrong-key', 'wrong-script-hash', 'wrong-witness-script-hash', 'wrong-amount', 'scriptsig-trailing-op', 'leftover-stack'],
     'p2tr-key': ['valid', 'wrong-key', 'wrong-amount', 'altered-output', 'altered-sequence', 'annex', 'annex-unsigned', 'hashtype-single', 'bad-sig-size', 'multi-input'],
     'p2tr-script': ['valid', 'wrong-key', 'wrong-amount', 'altered-output', 'control-parity', 'control-internal-key', 'control-node', 'control-leaf-version', 'control-truncated', 'wrong-script', 'annex',
-                    'extra-witness-item', 'leftover-stack', 'false-result', 'op-success', 'unknown-leaf-version', 'empty-script', 'multi-input'],
+                    'extra-witness-item', 'leftover-stack', 'false-result', 'op-success', 'unknown-leaf-version', 'empty-script', 'multi-input', 'many-checks', 'many-checks-annex'],
+    'p2wsh-timelock': ['csv-ok', 'csv-too-early', 'csv-equal', 'csv-highbits-ok', 'csv-highbits-too-early', 'csv-disabled-bit-in-tx', 'csv-disabled-bit-in-script', 'csv-type-mismatch', 'csv-version1',
+                       'cltv-ok', 'cltv-too-early', 'cltv-equal', 'cltv-type-mismatch', 'cltv-final-sequence', 'cltv-time-ok'],
+    'p2sh-timelock': ['csv-ok', 'csv-too-early', 'csv-highbits-too-early', 'csv-version1', 'cltv-ok', 'cltv-too-early', 'cltv-final-sequence', 'cltv-type-mismatch'],
 }
 FLAGMODS = {
     'p2pk': ['NULLFAIL', 'CLEANSTACK', 'SIGPUSHONLY+', 'LOW_S', 'STRICTENC'],
@@ -45,6 +48,8 @@ FLAGMODS = {
     'p2sh-p2wsh': ['WITNESS', 'P2SH'],
     'p2tr-key': ['TAPROOT', 'WITNESS'],
     'p2tr-script': ['TAPROOT', 'DISCOURAGE_OP_SUCCESS', 'DISCOURAGE_UPGRADABLE_TAPROOT_VERSION', 'DISCOURAGE_UPGRADABLE_PUBKEYTYPE'],
+    'p2wsh-timelock': ['CHECKSEQUENCEVERIFY', 'CHECKLOCKTIMEVERIFY', 'WITNESS'],
+    'p2sh-timelock': ['CHECKSEQUENCEVERIFY', 'CHECKLOCKTIMEVERIFY', 'P2SH'],
 }
 
 
@@ -94,6 +99,24 @@ def build(rng, otype, sat):
         wscript = rng.choice([rsign.spk_p2pk(pub), rsign.multisig_script(2, pubs3)])
         redeem = rsign.spk_p2wsh(wscript)
         spk = rsign.spk_p2sh(redeem)
+    elif otype in ('p2wsh-timelock', 'p2sh-timelock'):
+        # <n> CSV|CLTV DROP <pub> CHECKSIG ; the transaction fields are chosen per satisfaction below
+        is_csv = sat.startswith('csv')
+        TYPE = 1 << 22
+        if is_csv:
+            operand = rng.choice([1, 10, 144, 0xffff]) if 'type-mismatch' not in sat else (rng.choice([1, 10, 500]) | TYPE)
+            if sat == 'csv-disabled-bit-in-script':
+                operand = (1 << 31) | rng.choice([1, 0xffff, 0x7fffffff])
+        else:
+            operand = rng.choice([1, 100, 499999999]) if sat != 'cltv-time-ok' else rng.choice([500000000, 1600000000])
+        lockscript = push_num(operand) + bytes([OP_CHECKSEQUENCEVERIFY if is_csv else OP_CHECKLOCKTIMEVERIFY, OP_DROP]) + push_only(pub) + bytes([OP_CHECKSIG])
+        if otype == 'p2wsh-timelock':
+            wscript = lockscript
+            spk = rsign.spk_p2wsh(wscript)
+        else:
+            redeem = lockscript
+            spk = rsign.spk_p2sh(redeem)
+        tl = dict(is_csv=is_csv, operand=operand)
     elif otype == 'p2tr-key':
         internal = secp.xonly_from_sec(sk)
         root = None if rng.random() < 0.5 else rsign.rnd_bytes(rng, 32)
@@ -108,6 +131,11 @@ def build(rng, otype, sat):
             tap_script = bytes([OP_RESERVED]) if rng.random() < 0.5 else bytes([OP_1, OP_CAT])
         elif sat == 'empty-script':
             tap_script = b''
+        elif sat in ('many-checks', 'many-checks-annex'):
+            # one signature checked several times: the BIP342 budget is 50 + the size of the WHOLE witness
+            reps = rng.choice([3, 4, 5])
+            tap_script = b''.join(bytes([OP_DUP]) + push_only(xpk) + bytes([OP_CHECKSIGVERIFY]) for _ in range(reps - 1)) + push_only(xpk) + bytes([OP_CHECKSIG])
+            kind = 'checksig'
         elif kind == 'checksig':
             tap_script = push_only(xpk) + bytes([OP_CHECKSIG])
         elif kind == 'hashlock':
@@ -141,6 +169,35 @@ def build(rng, otype, sat):
     fid = rtx.txid(fund)
     prevouts = [(fid, fvout) if i == idx else (rsign.rnd_bytes(rng, 32), rng.randrange(3)) for i in range(nin)]
     tx = rsign.spending_tx(rng, prevouts, nout=rng.choice([1, 1, 2, 3]), version=rng.choice([1, 2, 2]), locktime=rng.choice([0, 0, 17, 500000001]))
+    if otype in ('p2wsh-timelock', 'p2sh-timelock'):
+        n0 = tl['operand']
+        if tl['is_csv']:
+            tx.version = 2 if sat != 'csv-version1' else 1
+            base = n0 & 0xffff
+            tflag = n0 & (1 << 22)
+            if sat in ('csv-ok', 'csv-version1', 'csv-disabled-bit-in-script', 'csv-type-mismatch'):
+                seq = (base + rng.choice([0, 1, 5])) & 0xffff | (tflag if sat != 'csv-type-mismatch' else 0)
+            elif sat == 'csv-equal':
+                seq = base | tflag
+            elif sat == 'csv-too-early':
+                seq = max(0, base - 1) | tflag
+            elif sat == 'csv-highbits-ok':
+                seq = ((base + 1) & 0xffff) | tflag | rng.choice([0x00010000, 0x20000000, 0x00200000])
+            elif sat == 'csv-highbits-too-early':
+                seq = max(0, base - 1) | tflag | rng.choice([0x00010000, 0x20000000, 0x00200000, 0x7f800000 & ~(1 << 22)])
+            else:   # csv-disabled-bit-in-tx
+                seq = base | (1 << 31)
+            tx.vin[idx][3] = seq
+        else:
+            if sat in ('cltv-ok', 'cltv-time-ok', 'cltv-final-sequence'):
+                tx.locktime = n0 + rng.choice([0, 1, 1000])
+            elif sat == 'cltv-equal':
+                tx.locktime = n0
+            elif sat == 'cltv-too-early':
+                tx.locktime = n0 - 1
+            else:   # type mismatch: height vs time
+                tx.locktime = 500000000 + n0 if n0 < 500000000 else 499999999
+            tx.vin[idx][3] = 0xffffffff if sat == 'cltv-final-sequence' else rng.choice([0, 0xfffffffe, 17])
     spent = [(amount, spk) if i == idx else (rng.choice([1, 999]), rsign.spk_p2tr(rsign.rnd_bytes(rng, 32))) for i in range(nin)]
     signer = sk if sat != 'wrong-key' else rsign.rnd_sk(rng)
     ht = 1 if rng.random() < 0.8 else rng.choice([2, 3, 0x81, 0x82, 0x83])
@@ -203,6 +260,10 @@ def build(rng, otype, sat):
         if otype == 'p2sh-p2wsh':
             r2 = redeem if sat != 'wrong-script-hash' else rsign.spk_p2wsh(ws + b'\x61')
             ssig = push_only(r2)
+    elif otype == 'p2wsh-timelock':
+        wit = [wsig(wscript), wscript]
+    elif otype == 'p2sh-timelock':
+        ssig = push_only(lsig(redeem)) + push_only(redeem)
     elif otype == 'p2sh-p2wpkh':
         code = rsign.spk_p2pkh(pub)
         wit = [wsig(code), pub]
@@ -221,7 +282,7 @@ def build(rng, otype, sat):
             sig = sig + b'\x01\x01'
         wit = [sig] + ([annex] if annex is not None else [])
     else:
-        annex = b'\x50\x01\x02' if sat == 'annex' else None
+        annex = b'\x50\x01\x02' if sat in ('annex', 'many-checks-annex') else None
         leaf = taproot.tapleaf_hash(tap_script, leaf_version)
         tht = rng.choice([0, 0, 1, 0x82])
         d = sighash.sighash_taproot(tx, idx, tht, spent, 1, annex, leaf, 0xffffffff)
@@ -477,6 +538,15 @@ def judge(sc, evs, part):
     ok, err = ref_verdict(sc)
     v, detail = impl_verdict(evs, sc['flags'], sc['otype'] in SEGWIT)
     cf = [e for k, e in evs if k == 'CF']
+    if cf and cf[0][1] == '1' and sc['otype'] == 'p2tr-script':
+        u = [e for k, e in evs if k == 'U']
+        w = sc['tx'].wit[sc['idx']]
+        if u and u[0].ret and u[0].sv == 3:
+            want_w = verify.witness_serialized_size(w) + VALIDATION_WEIGHT_OFFSET
+            if u[0].weight != want_w:
+                wit['weight'] = (u[0].weight, want_w)
+                part.violation('p2tr-script:initial-validation-weight-differs', wit)
+                return
     if cf and cf[0][1] == '1':
         if int(cf[0][7]) != sc['amount']:
             wit['amount'] = (cf[0][7], sc['amount'])
